@@ -678,7 +678,7 @@ EDITS = [e_empty_references, e_inside_text_element, e_more_names, e_dup_type, e_
 # the ways a schema document reaches the loader, in rotation: the rules
 # are the same for all of them
 WAYS = ["string", "path", "string", "url", "binary-file", "loader-object",
-        "string", "text-file"]
+        "string", "text-file", "loader-twice"]
 LOAD_N = [0]
 WAY_COUNT = collections.Counter()
 LAST_WAY = [None]
@@ -704,7 +704,15 @@ def load_by(xml, way):
     if way == "text-file":
         with open(path, encoding="utf-8") as f:
             return ZConfig.loadSchemaFile(f)
-    return ZConfig.loader.SchemaLoader().loadURL(path)
+    ld = ZConfig.loader.SchemaLoader()
+    if way == "loader-twice":
+        # the same loader object is asked twice: what it answers the
+        # second time is what counts (a refusal must be repeated)
+        try:
+            ld.loadURL(path)
+        except Exception:  # noqa
+            pass
+    return ld.loadURL(path)
 
 
 def load(xml, way=None):
@@ -883,6 +891,25 @@ OBJECT_PATH_DOCS = [
     '<schema><sectiontype name="s" prefix="zcverif_dt.fam">'
     '<key name="a" datatype=".Holder.Inner.conv"/></sectiontype></schema>',
 ]
+
+
+_L = "t" + "y" * 69       # names of 70 characters: no limit is documented
+_A = "a" + "b" * 99
+LONG_NAME_DOCS = [
+    '<schema><sectiontype name="%s"><key name="%s"/></sectiontype>'
+    '<section type="%s" name="*" attribute="s"/></schema>' % (_L, _L, _L),
+    '<schema><abstracttype name="%s"/><sectiontype name="%s" '
+    'implements="%s"/><sectiontype name="x%s" extends="%s"/>'
+    '<multisection type="%s" name="+" attribute="m"/></schema>'
+    % (_A, _L, _A, _L, _L, _A),
+    '<schema handler="%s"><sectiontype name="%s"/>'
+    '<key name="k" handler="%s" attribute="%s"/>'
+    '<section type="%s" name="%s" handler="h"/></schema>'
+    % (_L, _L, _L, _A, _L, _L),
+    '<schema keytype="identifier"><key name="%s"/><multikey name="%s2"/>'
+    '</schema>' % (_L, _L),
+]
+OBJECT_PATH_DOCS = OBJECT_PATH_DOCS + LONG_NAME_DOCS
 
 
 def run_object_paths(ctx):
